@@ -1245,6 +1245,9 @@ static vnaproperty_t **descend(parser_t *parser,
     vnaproperty_t **anchor = rootptr;
     vnaproperty_t *node = *anchor;
     vnaproperty_t *collection = NULL;
+    vnaproperty_t *undo_list = NULL;	/* list of first insert/append */
+    int undo_index = 0;			/* position of the new element */
+    size_t undo_length = 0;		/* length before the insertion */
 
     /*
      * Following the expression list, walk down the tree.
@@ -1340,8 +1343,15 @@ static vnaproperty_t **descend(parser_t *parser,
 		    goto error;
 		}
 		collection = node;
+		if (undo_list == NULL) {
+		    undo_length = ((vnaproperty_list_t *)node)->vpl_length;
+		    undo_index = exp->u.ex_index;
+		}
 		if ((anchor = list_insert(node, exp->u.ex_index)) == NULL) {
 		    goto error;
+		}
+		if (undo_list == NULL) {
+		    undo_list = node;
 		}
 		node = *anchor;
 		continue;
@@ -1352,8 +1362,15 @@ static vnaproperty_t **descend(parser_t *parser,
 		    goto error;
 		}
 		collection = node;
+		if (undo_list == NULL) {
+		    undo_length = ((vnaproperty_list_t *)node)->vpl_length;
+		    undo_index = undo_length;
+		}
 		if ((anchor = list_append(node)) == NULL) {
 		    goto error;
+		}
+		if (undo_list == NULL) {
+		    undo_list = node;
 		}
 		node = *anchor;
 		continue;
@@ -1383,6 +1400,24 @@ static vnaproperty_t **descend(parser_t *parser,
     return anchor;
 
 error:
+    /*
+     * Insert and append are not idempotent: if a later step failed,
+     * take the new element out again (everything created after it
+     * hangs below it) so that the call can be repeated.
+     */
+    if (undo_list != NULL) {
+	vnaproperty_list_t *vplp = (vnaproperty_list_t *)undo_list;
+	int saved_errno = errno;
+
+	if ((size_t)undo_index < undo_length) {
+	    (void)list_delete(undo_list, undo_index);
+	} else {
+	    vnaproperty_free(vplp->vpl_vector[undo_index]);
+	    vplp->vpl_vector[undo_index] = NULL;
+	    vplp->vpl_length = undo_length;
+	}
+	errno = saved_errno;
+    }
     parser_free(parser);
     return NULL;
 }
